@@ -14,9 +14,34 @@ warn_on_retrace_num = int(os.environ.get("EINX_WARN_ON_RETRACE", 0))
 max_cache_size = int(os.environ.get("EINX_CACHE_SIZE", -1))
 
 
+class _TypedScalar:
+    # Hashable wrapper that distinguishes scalars that compare equal in Python but have different types (2, 2.0, True)
+    def __init__(self, value):
+        self.value = value
+
+    def __eq__(self, other):
+        return isinstance(other, _TypedScalar) and type(self.value) is type(other.value) and self.value == other.value
+
+    def __hash__(self):
+        return hash((type(self.value), self.value))
+
+
+def _unwrap_value(x):
+    if isinstance(x, _TypedScalar):
+        return x.value
+    elif isinstance(x, tuple):
+        return tuple(_unwrap_value(x) for x in x)
+    elif isinstance(x, frozendict.frozendict):
+        return frozendict.frozendict({k: _unwrap_value(v) for k, v in x.items()})
+    else:
+        return x
+
+
 def _freeze_value(x):
     if isinstance(x, np.ndarray):
         return _freeze_value(x.tolist())
+    elif isinstance(x, bool | int | float | np.generic):
+        return _TypedScalar(x)
     elif isinstance(x, list | tuple):
         return tuple(_freeze_value(x) for x in x)
     elif isinstance(x, dict):
@@ -97,6 +122,11 @@ def _with_retrace_warning(func):
 # 2. warns if there are more than EINX_WARN_ON_RETRACE cache failures from the same call site
 def lru_cache(func):
     func = _with_retrace_warning(func)
+
+    inner = func
+
+    def func(*args, **kwargs):
+        return inner(*[_unwrap_value(a) for a in args], **{k: _unwrap_value(v) for k, v in kwargs.items()})
 
     if max_cache_size > 0:
         func = functools.lru_cache(maxsize=max_cache_size if max_cache_size > 0 else None)(func)
